@@ -193,6 +193,11 @@ class IOBase(Communicator):
     def check_connection(self):
         """called before communicate"""
         if not self.is_connected:
+            if self._lock._is_owned():  # pylint: disable=protected-access
+                # within a transaction (multicomm or several calls under self._lock): do not try to
+                # reconnect while holding the lock, as the thread doing a reconnect needs the lock
+                # for the identification and in reconnect callbacks: both would wait for ever
+                raise SilentError('disconnected') from None
             now = time.time()
             if now >= self._last_connect_attempt + self.pollinterval:
                 # we do not try to reconnect more often than pollinterval
